@@ -283,3 +283,25 @@ func (t *AppendTree) RootWith(pending []common.Hash) common.Hash {
 	c := &AppendTree{d: t.d, hashes: append(append([]common.Hash{}, t.hashes...), pending...)}
 	return c.sub(Height, 0)
 }
+
+// ProofOf returns the Merkle proof (32 siblings) of leaf idx in the tree over the first n leaves.
+func (t *AppendTree) ProofOf(n, idx int) [Height]common.Hash {
+	c := &AppendTree{d: t.d, atoms: t.atoms[:n], hashes: t.hashes[:n]}
+	var p [Height]common.Hash
+	for h := 0; h < Height; h++ {
+		p[h] = c.sub(h, (idx>>uint(h))^1)
+	}
+	return p
+}
+
+// Atoms returns the leaf atoms.
+func (t *AppendTree) Atoms() []int { return append([]int{}, t.atoms...) }
+
+// ProofOf returns the Merkle proof of position pos under the current root.
+func (t *UpdTree) ProofOf(pos int) [Height]common.Hash {
+	var p [Height]common.Hash
+	for h := 0; h < Height; h++ {
+		p[h], _ = t.sub(h, (pos>>uint(h))^1)
+	}
+	return p
+}
